@@ -370,6 +370,24 @@ func c15UnsafeAPIs(p *Prog, r *Report) {
 				lr = p.LockFlow(fi, entry)
 			}
 			hs, _ := mustHeldAny(lr, c)
+			// the walk may be the body of an iterator the (unexported) function returns: it runs where the caller
+			// ranges over it, under the locks held at every call of the function (first(r.inOrder()) under r.m)
+			if len(hs) == 0 && fi.Obj != nil && !fi.Obj.Exported() {
+				inReturned := false
+				ast.Inspect(fi.Decl.Body, func(y ast.Node) bool {
+					rs, ok := y.(*ast.ReturnStmt)
+					if !ok || len(rs.Results) != 1 {
+						return true
+					}
+					if lit, ok := ast.Unparen(rs.Results[0]).(*ast.FuncLit); ok && lit.Pos() <= c.Pos() && c.End() <= lit.End() {
+						inReturned = true
+					}
+					return true
+				})
+				if inReturned {
+					hs = inferEntryHeld(p, fi, 0)
+				}
+			}
 			cons := k + "#omap." + fn.Name()
 			okHeld := len(hs) > 0
 			// the mutators of the same field must hold the same lock class in write mode
